@@ -531,6 +531,7 @@ func (e *Explorer) assert(label string, c value) {
 				}
 			default:
 				st.Undecided++
+				e.Aborted[fmt.Sprintf("note: %s undecided (%s) with choices %v", label, firstWord(r), e.chooseLog)] += 0
 			}
 			e.addPC(c.t)
 			return
@@ -715,4 +716,11 @@ func (e *Explorer) TopFuncs(n int) []string {
 		out = append(out, fmt.Sprintf("%s x%d", x.k, x.v))
 	}
 	return out
+}
+
+func firstWord(s string) string {
+	if i := strings.IndexAny(s, " :("); i > 0 {
+		return s[:i]
+	}
+	return s
 }
